@@ -58,3 +58,43 @@ theorem semi_absent (eol : List Char) (T : List Out) (sl st : List Triv) :
   simp [fmtSemi, outs, List.filterMap_map]
 
 end StyluaModel.SemiLemmas
+
+namespace StyluaModel.LineSafe
+open StyluaModel.Trivia StyluaModel.Semi
+
+theorem lineSafe_newline (r : List Out) : lineSafe (.newline :: r) = lineSafe r := by
+  simp [lineSafe]
+theorem lineSafe_indent (r : List Out) : lineSafe (.indent :: r) = lineSafe r := by
+  simp [lineSafe]
+theorem lineSafe_space (r : List Out) : lineSafe (.space :: r) = lineSafe r := by
+  simp [lineSafe]
+
+theorem lineSafe_leading_comment (eol : List Char) (k : CKind) (t : List Char) (r : List Out) :
+    lineSafe (fmtComment eol .leading k t ++ r) = lineSafe r := by
+  cases k <;> simp [fmtComment, lineSafe]
+
+theorem loadAux_leading_safe (eol : List Char) (t : List Triv) : ∀ nl skip,
+    lineSafe (loadAux eol .leading nl skip t) = true := by
+  induction t with
+  | nil => intro _ _; rfl
+  | cons x r ih =>
+    intro nl skip
+    cases x with
+    | ws hasNl =>
+      simp only [loadAux]
+      split
+      · exact ih _ _
+      · split
+        · split
+          · simp only [List.cons_append, List.nil_append, lineSafe_newline]; exact ih _ _
+          · simp only [List.nil_append]; exact ih _ _
+        · exact ih _ _
+    | comment k txt =>
+      simp only [loadAux, lineSafe_leading_comment]
+      exact ih _ _
+
+/-- the leading trivia of a formatted token never ends in an open line comment: every line comment in it is the
+last thing on its line, so it cannot swallow the token -/
+theorem load_leading_safe (eol : List Char) (t : List Triv) : lineSafe (load eol .leading t) = true :=
+  loadAux_leading_safe eol t 0 false
+end StyluaModel.LineSafe
